@@ -46,6 +46,23 @@ RULE = ("INI texts rendered from generated structures: 1-6 sections with dotted 
         "replace_config_dir acting as str.replace on effective values. Plus raw dictionaries (bad '$' syntax) through Config(config_dict=). "
         "distinct = distinct INI texts; non-trivial = has a dotted section name or a '$'")
 
+LEVEL_TEXT = ("Proved in Lean on the model of the REPAIRED get_config_dict, full strength: roundtrip (every configuration with distinct "
+              "prefix-free section names whose options all interpolate: the conversion succeeds, Config(config_dict=...) succeeds, has the "
+              "same sections up to order, no DEFAULT, and in every section exactly the original effective items - whatever the values "
+              "contain ($, references, environment variables) and in any environment on the reading side), nesting_preserved + "
+              "walk_rebuilds_names (_parse_sections / convert_to_dict are inverse on prefix-free names: same leaf paths), roundtrip_values, "
+              "readDict_escaped, interp_escape (interpolation inverts the escaping in every context), beforeSet_escape (read_dict accepts "
+              "every escaped text), replace_only_containing. refuted_dollar_unescaped: without the escaping 'pa$$word' cannot be read back. "
+              "Tie: generated INI texts through the real Config.read_string / get_config_dict / Config(config_dict=) vs the model (nesting, "
+              "effective values incl. error kinds, dictionary, re-read config), raw dictionaries through read_dict; oracle = the statement.")
+LEVEL_NOTE = ("The model mirrors /repo WITH harness/findings_proposed/C35-escape-dollar.fix.diff (escape '$' as '$$'; root of the walk None instead "
+              "of ''); on a tree without it the check reports VIOLATION with concrete replays ('x = pa$$word', '[.c]'), by design. "
+              "configparser's interpolation/read_dict are modelled from the Python 3.12 source; INI text parsing is not modelled (the model "
+              "starts from the parser's raw table). replace_config_dir is proved only as 'values without the dir are unchanged' "
+              "(replace_only_containing); that it acts as str.replace on effective values is checked by the oracle. Non-prefix-free section "
+              "names ('[a]' with '[a.b]') are outside the claim (Config itself is ill-defined there).")
+TECHNIQUE = "Lean 4 proof on a model of ExtendedInterpolation + Config sections trie + differential round trips of generated INI configurations"
+
 COMPS = ["a", "b", "c", "x", "executors", "batch", "repos", "default", "backend", "A", "é"]
 KEYS = ["x", "y", "z", "k", "path", "db_uri", "config_dir", "HOME", "VERIF_C35_A", "X", "role", "a.b"]
 ENV = {"VERIF_C35_A": "envA", "VERIF_C35_D": "do$$llar", "VERIF_C35_R": "<${x}>", "VERIF_C35_E": ""}
